@@ -44,7 +44,7 @@ def gen_plan(prop, seed, index, tier="quick"):
         "initial_rebalance_delay": r.choice([0.0, 0.0, 0.05, 0.3]),
         "api_versions": {"11": [0, join_max], "14": [0, 3 if join_max >= 5 else min(join_max, 1)],
                          # OffsetFetch v1 reports coordinator errors per partition, v2+ at top level
-                         "9": [0, r.choice([1, 2, 3, 3]) if prop in ("C13", "C06", "C04") else 3]},
+                         "9": [0, r.choice([1, 1, 2, 3]) if prop in ("C13", "C06", "C04") else 3]},
         "hb_completing_rip": r.random() < 0.3,
     }
     session = r.choice([600, 1000, 3000, 6000])
@@ -92,6 +92,9 @@ def gen_plan(prop, seed, index, tier="quick"):
                  "coordinator_loading", "broker_down"]
         if prop in ("C05", "C06"):
             kinds += ["partitions_grow", "topic_create", "resubscribe"]
+        if prop in ("C04", "C13", "C05"):
+            # leaders of data partitions moving / missing while positions are looked up
+            kinds += ["leader_unavailable", "leader_move"]
         if prop == "C07":
             kinds = []
         enabled = r.sample(kinds, r.randint(1, len(kinds)))
@@ -116,6 +119,15 @@ def gen_plan(prop, seed, index, tier="quick"):
             elif k == "broker_down":
                 env.append({"at": at, "do": "broker_down", "node": r.randint(1, nbrokers),
                             "d": r.choice([0.2, 1.0])})
+            elif k in ("leader_unavailable", "leader_move"):
+                t = r.choice(sorted(topics))
+                e = {"at": at if r.random() < 0.5 else round(r.uniform(0.0, 0.3), 3), "do": k, "topic": t,
+                     "p": r.randrange(topics[t]["partitions"])}
+                if k == "leader_unavailable":
+                    e["d"] = r.choice([0.05, 0.3, 1.0])
+                else:
+                    e["node"] = r.randint(1, nbrokers)
+                env.append(e)
             elif k == "partitions_grow":
                 env.append({"at": at, "do": "partitions_grow", "topic": r.choice(sorted(topics))})
             elif k == "topic_create":
@@ -141,6 +153,10 @@ def gen_plan(prop, seed, index, tier="quick"):
                 faults.append({"on": trig, "do": "lose_response"})
             else:
                 faults.append({"on": trig, "do": {"delay": r.choice([0.01, 0.2])}})
+    if prop == "C13" and r.random() < 0.35:
+        # the committed-offset lookup itself failing with a retriable coordinator error
+        faults.append({"on": {"request": "OffsetFetch", "nth": r.randint(1, 3)},
+                       "do": {"reply_error": r.choice([14, 14, 16])}})
     # logs
     logs = []
     for t, d in sorted(topics.items()):
@@ -527,6 +543,10 @@ def execute(plan):
                 world.faults._apply_env("coordinator_loading", [node, e["d"]])
             elif do == "broker_down":
                 world.faults._apply_env("broker_down", [e["node"], e["d"]])
+            elif do == "leader_unavailable":
+                world.faults._apply_env("leader_unavailable", [e["topic"], e["p"], e["d"]])
+            elif do == "leader_move":
+                world.faults._apply_env("leader_move", [e["topic"], e["p"], e["node"]])
             elif do == "partitions_grow":
                 top = cl.topics.get(e["topic"])
                 if top is not None:
@@ -677,6 +697,24 @@ def check_deliveries(plan, world, cl, ctx, prop):
                 nxt = {a: b for a, b in zip(vis, vis[1:])}
                 firsts = {next((o for o in vis if o >= s_), None) for s_ in starts}
                 first_ok = offs[0] in firsts
+                cfirsts = {next((o for o in vis if o >= v), None) for k, v in cands if k == "committed"}
+                if first_ok and offs[0] not in cfirsts and not getattr(m, "seeked", False) \
+                        and plan["kw"].get("auto_offset_reset") != "none":
+                    # started from a ListOffsets result: only legitimate when the coordinator
+                    # answered "no committed offset" for this partition (or gave one that is
+                    # out of range) - a lookup that failed or never covered the partition
+                    # is not an answer, and re-delivery below the committed offset of the
+                    # group would follow
+                    told = [val for (sq, client, kind, t, val) in served
+                            if client == m.cid and t == tp and kind == "committed"
+                            and cb["lo"] <= sq <= ds[0][0]
+                            and ctx["served_key"].get(sq) in ctx["delivered_resp"]]
+                    end_now = max((st.last_offset + 1 for st in part.log), default=0)
+                    if not any(v < 0 or v > end_now or v < part.log_start for v in told):
+                        world.violation(prop, "position_reset_without_committed_offset_answer", {
+                            "member": m.cid, "tp": list(tp), "first_delivered": offs[0],
+                            "committed_answers": told[:5],
+                            "group_committed": cl.group_offsets.get(GROUP, {}).get(tp, (None,))[0]})
                 if not first_ok:
                     world.violation(prop, "delivery_not_from_handover_point", {
                         "member": m.cid, "tp": list(tp), "first_delivered": offs[0],
